@@ -52,7 +52,9 @@ type pool struct {
 	nextOff     uint32 // first host offset after this pool's ranges (a later pool may share the subnet)
 }
 
-func u32(ip uint32) string { return fmt.Sprintf("%d.%d.%d.%d", byte(ip>>24), byte(ip>>16), byte(ip>>8), byte(ip)) }
+func u32(ip uint32) string {
+	return fmt.Sprintf("%d.%d.%d.%d", byte(ip>>24), byte(ip>>16), byte(ip>>8), byte(ip))
+}
 
 // genPools draws 1-4 pools with masks /16../30, gateways and VLAN ids 0..4094; all routable from one node subnet.
 func genPools(c *core.Choices) []*pool {
@@ -179,14 +181,14 @@ func schedTask(inst *instance, podJSON, nodesJSON []byte) {
 
 // world is the minimal environment of phase (a): API server, listers, nothing else.
 type world struct {
-	S       *core.Sim
-	K       *simkube.Kube
-	inst    *instance
-	proc    int
-	ready   bool
-	started bool
-	done    bool
-	result  string // "", "bound", "unschedulable: ...", "bind error: ..."
+	S                  *core.Sim
+	K                  *simkube.Kube
+	inst               *instance
+	proc               int
+	ready              bool
+	started            bool
+	done               bool
+	result             string // "", "bound", "unschedulable: ...", "bind error: ..."
 	podJSON, nodesJSON []byte
 	// second-attempt histories: the pods/binding call of the first attempt fails after the IPs were allocated and
 	// persisted; before the scheduler retries, galaxy-ipam may be restarted (tables rebuilt from the stored objects) on
@@ -442,8 +444,23 @@ func run(prop, tier string, c *core.Choices, trace bool) *harness.RunResult {
 	_ = json.Unmarshal(pobj.JSON, &pj)
 	argsAnn := pj.Metadata.Annotations[annArgs]
 	// phase (b)
-	decoded, status, reply, infra := w2.AddWithArgsAnnotation(ns, name, argsAnn)
-	res.Trace = append(res.Trace, fmt.Sprintf("annotation written by Bind: %s", argsAnn), fmt.Sprintf("stored FloatingIP objects: %v", stored), fmt.Sprintf("plugin decoded: %+v (ADD status %d)", decoded, status))
+	// the pod's networks on the node: one default network, or 1-3 networks selected by annotation (comma list or JSON,
+	// with and without interface names); some configurations carry their own ipam section (the plugins' fallback when
+	// the args have no ipinfos). Every plugin of the pod takes the pod's ipinfos.
+	creq := w2.C13Request{NS: ns, Name: name, ArgsAnnotation: argsAnn}
+	if c.Prob(2, 3) {
+		types := []string{"galaxy-k8s-vlan", "galaxy-flannel", "galaxy-underlay-veth", "tke-route-eni"}
+		for i, n := 0, 1+c.Choose(3); i < n; i++ {
+			cn := w2.C13Net{Name: fmt.Sprintf("net%d", i), Type: types[c.Choose(len(types))], IPAM: c.Prob(1, 2)}
+			if c.Prob(1, 3) {
+				cn.IfName = fmt.Sprintf("net%d", 1+c.Choose(4))
+			}
+			creq.Nets = append(creq.Nets, cn)
+		}
+		creq.JSONForm = c.Prob(1, 2)
+	}
+	invs, status, reply, infra := w2.AddForC13(creq)
+	res.Trace = append(res.Trace, fmt.Sprintf("annotation written by Bind: %s", argsAnn), fmt.Sprintf("stored FloatingIP objects: %v", stored), fmt.Sprintf("pod networks: %+v json=%v", creq.Nets, creq.JSONForm), fmt.Sprintf("plugins decoded: %+v (ADD status %d)", invs, status))
 	if infra != "" {
 		res.Infra = "phase (b): " + infra
 		return res
@@ -485,59 +502,84 @@ func run(prop, tier string, c *core.Choices, trace bool) *harness.RunResult {
 		fail("stored-count", "%d FloatingIP objects stored for a pod that requested %d", len(stored), want)
 		return res
 	}
-	if len(decoded) != len(stored) {
-		fail("count-differs", "the plugin decoded %d IPs, galaxy-ipam stored %v", len(decoded), stored)
+	wantInvs := len(creq.Nets)
+	if wantInvs == 0 {
+		wantInvs = 1
+	}
+	if len(invs) != wantInvs {
+		fail("plugin-count", "%d plugins were invoked for a pod with %d networks", len(invs), wantInvs)
 		return res
 	}
-	var got []string
-	for i, d := range decoded {
-		got = append(got, d.Address)
-		ipn := net.ParseIP(d.Address).To4()
-		if ipn == nil {
-			fail("address-invalid", "decoded address #%d %q is not an IPv4 address", i, d.Address)
+	res.Stats[fmt.Sprintf("c13.networks-per-pod-%d", wantInvs)]++
+	for ni, inv := range invs {
+		who := fmt.Sprintf("network #%d (%s on %s)", ni, inv.Plugin, inv.IfName)
+		if ni < len(creq.Nets) && creq.Nets[ni].IPAM {
+			res.Stats["c13.network-with-own-ipam-section"]++
+		}
+		if !inv.HadIPInfos {
+			fail("ipinfos-missing", "%s was invoked without the pod's ipinfos in its CNI_ARGS", who)
 			return res
 		}
-		v := uint32(ipn[0])<<24 | uint32(ipn[1])<<16 | uint32(ipn[2])<<8 | uint32(ipn[3])
-		var p *pool
-		for _, q := range pools {
-			for _, a := range q.all {
-				if a == v {
-					p = q
-				}
-			}
-		}
-		if p == nil {
-			fail("address-not-configured", "decoded address #%d %s belongs to no configured pool", i, d.Address)
+		if inv.Err != "" {
+			fail("decode-failed", "%s: the plugin-side decoder failed: %s", who, inv.Err)
 			return res
 		}
-		if len(lists) > 0 {
-			in := false
-			for _, a := range listIPs[i] {
-				if a == v {
-					in = true
+		decoded := inv.Decoded
+		if len(decoded) != len(stored) {
+			fail("count-differs", "%s decoded %d IPs, galaxy-ipam stored %v", who, len(decoded), stored)
+			return res
+		}
+		var got []string
+		for i, d := range decoded {
+			got = append(got, d.Address)
+			ipn := net.ParseIP(d.Address).To4()
+			if ipn == nil {
+				fail("address-invalid", "decoded address #%d %q is not an IPv4 address", i, d.Address)
+				return res
+			}
+			v := uint32(ipn[0])<<24 | uint32(ipn[1])<<16 | uint32(ipn[2])<<8 | uint32(ipn[3])
+			var p *pool
+			for _, q := range pools {
+				for _, a := range q.all {
+					if a == v {
+						p = q
+					}
 				}
 			}
-			if !in {
-				fail("order-differs", "decoded address #%d %s is not from the %d-th requested list %v (all lists %v)", i, d.Address, i, lists[i], lists)
+			if p == nil {
+				fail("address-not-configured", "decoded address #%d %s belongs to no configured pool", i, d.Address)
+				return res
+			}
+			if len(lists) > 0 {
+				in := false
+				for _, a := range listIPs[i] {
+					if a == v {
+						in = true
+					}
+				}
+				if !in {
+					fail("order-differs", "decoded address #%d %s is not from the %d-th requested list %v (all lists %v)", i, d.Address, i, lists[i], lists)
+					return res
+				}
+			}
+			if d.PrefixLen != p.plen {
+				fail("prefix-differs", "address %s: plugin got prefix length /%d, its pool %s has /%d", d.Address, d.PrefixLen, p.Subnet, p.plen)
+				return res
+			}
+			if d.Gateway != p.Gateway {
+				fail("gateway-differs", "address %s: plugin got gateway %s, its pool has %s", d.Address, d.Gateway, p.Gateway)
+				return res
+			}
+			if int(d.Vlan) != p.Vlan {
+				fail("vlan-differs", "address %s: plugin got VLAN %d, its pool has %d", d.Address, d.Vlan, p.Vlan)
 				return res
 			}
 		}
-		if d.PrefixLen != p.plen {
-			fail("prefix-differs", "address %s: plugin got prefix length /%d, its pool %s has /%d", d.Address, d.PrefixLen, p.Subnet, p.plen)
+		sort.Strings(got)
+		if strings.Join(got, ",") != strings.Join(stored, ",") {
+			fail("addresses-differ", "%s decoded %v, galaxy-ipam stored %v", who, got, stored)
 			return res
 		}
-		if d.Gateway != p.Gateway {
-			fail("gateway-differs", "address %s: plugin got gateway %s, its pool has %s", d.Address, d.Gateway, p.Gateway)
-			return res
-		}
-		if int(d.Vlan) != p.Vlan {
-			fail("vlan-differs", "address %s: plugin got VLAN %d, its pool has %d", d.Address, d.Vlan, p.Vlan)
-			return res
-		}
-	}
-	sort.Strings(got)
-	if strings.Join(got, ",") != strings.Join(stored, ",") {
-		fail("addresses-differ", "the plugin decoded %v, galaxy-ipam stored %v", got, stored)
 	}
 	return res
 }
